@@ -461,6 +461,52 @@ def memo_forward(prog, f):
     return st.value, inline_locals(f, st.targets[0].slice), table
 
 
+def forward_kind(expr, p):
+    """how an expression hands on the parameter p: 'same' (p itself), 'harmless' (p, with None / the empty container replaced by an empty
+    default), 'swallows' (`p or <something else>`: every falsy value of p - 0, 0.0, '' - is replaced), None (anything else)"""
+    if isinstance(expr, ast.Name) and expr.id == p:
+        return "same"
+    if isinstance(expr, ast.IfExp):
+        tt = unparse(expr.test).replace(" ", "")
+        other = expr.orelse if tt in (p + "isNone", p + "==None") else (expr.body if tt in (p + "isnotNone", p + "!=None") else None)
+        if isinstance(other, ast.Name) and other.id == p:
+            return "harmless"
+    if isinstance(expr, ast.BoolOp) and isinstance(expr.op, ast.Or) and len(expr.values) == 2 and isinstance(expr.values[0], ast.Name) and expr.values[0].id == p:
+        if unparse(expr.values[1]).replace(" ", "") in ("{}", "[]", "()", "''", '""', "dict()", "list()", "tuple()"):
+            return "harmless"
+        return "swallows"
+    return None
+
+
+def _unpacked_from_helper(prog, f, assign, p):
+    """`a, p, c = self.helper(x, p, y)` with `return (e1, e2, e3)` in the helper: the expression p is rebound to, written over f's names"""
+    import copy
+    t = assign.targets[0] if isinstance(assign, ast.Assign) and len(assign.targets) == 1 else None
+    if not (isinstance(t, (ast.Tuple, ast.List)) and isinstance(assign.value, ast.Call)):
+        return None
+    pos = [i for i, e in enumerate(t.elts) if isinstance(e, ast.Name) and e.id == p]
+    callee = prog.resolve_call(f, assign.value)
+    if len(pos) != 1 or callee is None:
+        return None
+    rets = returns_of(callee)
+    if len(rets) != 1 or not (isinstance(rets[0].value, (ast.Tuple, ast.List)) and len(rets[0].value.elts) == len(t.elts)):
+        return None
+    try:
+        _, b = bind(prog, f, assign.value, callee)
+    except Undecided:
+        return None
+    if b is None or any(k.startswith("*") for k in b):
+        return None
+    local_stores = {x.id for x in ast.walk(callee.node) if isinstance(x, ast.Name) and isinstance(x.ctx, ast.Store)}
+    if local_stores:
+        return None
+
+    class S(ast.NodeTransformer):
+        def visit_Name(self, n):
+            return copy.deepcopy(b[n.id]) if n.id in b and isinstance(n.ctx, ast.Load) else n
+    return S().visit(copy.deepcopy(rets[0].value.elts[pos[0]]))
+
+
 def check_wrapper(ck, prog, rule, api_rel, api_qual, backend_key, argmap=None, allow_pre=(), void=False, memo=None, _hop=0, _f=None, skip_returns=()):
     """a thin wrapper: what it returns (or, for void=True, the one backend call it makes) is `<receiver>.<backend>(...)` with each
     of its own parameters (argmap, default: all, same name) bound to the stated formal.
@@ -539,6 +585,16 @@ def check_wrapper(ck, prog, rule, api_rel, api_qual, backend_key, argmap=None, a
                             good &= ck.ob(rule, construct, False, expected="%s reaches %s unchanged" % (own_p, formal), found="%s: %s" % (unparse(n), pt), slot=own_p, where=f.loc(n),
                                           note="a checking helper in front of the backend must hand back the value it was given")
                             continue
+                    newval = _unpacked_from_helper(prog, f, n, own_p) if isinstance(n, ast.Assign) else None
+                    if newval is None and isinstance(n, ast.Assign) and len(n.targets) == 1 and isinstance(n.targets[0], ast.Name):
+                        newval = n.value
+                    fk = forward_kind(newval, own_p) if newval is not None else None
+                    if fk in ("same", "harmless"):
+                        continue
+                    if fk == "swallows":
+                        good &= ck.ob(rule, construct, False, expected="%s reaches %s as the caller passed it" % (own_p, formal), found="%s = %s" % (own_p, unparse(newval)[:60]), slot=own_p + ":rebound",
+                                      where=f.loc(n), note="`p or default` replaces every falsy value of p, a legitimate 0 included")
+                        continue
                     txt = unparse(n.value).replace(" ", "")
                     changing = txt.startswith(("sorted(", "set(", "list(set(", "reversed(", "list(reversed(", "frozenset(", "tuple(sorted(", "sorted(set(", "list(sorted(")) or txt.endswith("[::-1]")
                     if not changing:
@@ -550,15 +606,8 @@ def check_wrapper(ck, prog, rule, api_rel, api_qual, backend_key, argmap=None, a
                 good &= ck.ob(rule, construct, False, expected="%s -> %s" % (own_p, formal), found="parameter %s is not forwarded" % own_p,
                               slot=own_p, where=f.loc(v))
                 continue
-            ok = isinstance(actual, ast.Name) and actual.id == own_p
-            if not ok and isinstance(actual, ast.IfExp):
-                # `<default> if p is None else p`: every value the caller passes is forwarded as it is; None (no value) gets a default
-                tt = unparse(actual.test).replace(" ", "")
-                other = actual.orelse if tt in (own_p + "isNone", own_p + "==None") else (actual.body if tt in (own_p + "isnotNone", own_p + "!=None") else None)
-                ok = isinstance(other, ast.Name) and other.id == own_p
-            if not ok and isinstance(actual, ast.BoolOp) and isinstance(actual.op, ast.Or) and len(actual.values) == 2 and isinstance(actual.values[0], ast.Name) \
-                    and actual.values[0].id == own_p and unparse(actual.values[1]).replace(" ", "") in ("{}", "[]", "()", "''", '""', "dict()", "list()", "tuple()"):
-                ok = True             # `p or {}`: the only values replaced are the empty container itself and None
+            # `<default> if p is None else p` / `p or {}`: every value the caller can meaningfully pass is forwarded as it is
+            ok = forward_kind(actual, own_p) in ("same", "harmless")
             if not ok and isinstance(actual, ast.Call) and len(actual.args) == 1 and not actual.keywords and isinstance(actual.args[0], ast.Name) and actual.args[0].id == own_p:
                 # the parameter goes through a checking helper first: fine if the helper hands back exactly what it was given
                 pt = passthrough(prog, f, actual)
